@@ -635,6 +635,13 @@ run_prog(void)
             explicit_map = 1;
             do_configure();
             api("configure");
+        } else if (!strcmp(op, "shape")) {
+            // shape S W H: the camera of stream S gets a new region of interest (takes effect with the configure that follows)
+            int s = atoi(prog[++i]);
+            SC[s].w = (uint32_t)atoi(prog[++i]);
+            SC[s].h = (uint32_t)atoi(prog[++i]);
+            do_configure();
+            api("configure");
         } else if (!strcmp(op, "join2")) {
             while (!aborter_done)
                 vs_yield_low("wait_aborter");
